@@ -196,11 +196,11 @@ Proof.
   pose proof (i32_range _ Hu). lia.
 Qed.
 
-Lemma g_thrift_ReadMessageBegin_eq en buf :
-  wf buf -> unerr (g_thrift_ReadMessageBegin en buf) = rmap zl (r_message_begin buf).
+Lemma g_thrift_ReadMessageBegin_sim en buf :
+  wf buf -> sim zl (g_thrift_ReadMessageBegin en buf) (r_message_begin buf).
 Proof.
   intros W. unfold g_thrift_ReadMessageBegin, r_message_begin.
-  lentest buf 4%Z 4 H; [reflexivity|].
+  lentest buf 4%Z 4 H; [cbn; eexists; reflexivity|].
   rewrite (gbe_load_ok 4) by (cbn; lia). cbn [bind]. change (N.of_nat 4) with 4.
   set (header := unbe (take 4 buf)).
   change 4294901760%Z with (Z.of_N 4294901760). change 65535%Z with (Z.of_N 65535).
@@ -208,15 +208,16 @@ Proof.
   change (Z.to_N thrift_msgVersionMask) with 4294901760. change (Z.to_N thrift_msgVersion1) with 2147549184.
   change (Z.to_N thrift_msgTypeMask) with 65535.
   destruct (Z.eqb_spec (Z.of_N (N.land header 4294901760)) 2147549184) as [E|E];
-    destruct (N.eqb_spec (N.land header 4294901760) 2147549184) as [E'|E']; try lia; [|reflexivity].
+    destruct (N.eqb_spec (N.land header 4294901760) 2147549184) as [E'|E']; try lia;
+    [|cbn; eexists; reflexivity].
   cbn [negb].
   rewrite (wraps_id 32) by (lia || (pose proof (N_land_65535 header); unfold in_s; lia)).
   rewrite (gslice_from_ok buf 4) by (unfold glen; lia). rewrite slice_from_ok by lia.
   cbn [bind]. change (Z.to_N 4) with 4.
   pose proof (g_thrift_ReadString_sim en (drop 4 buf) (wf_drop 4 buf W)) as S.
   destruct (r_string (drop 4 buf)) as [[name l]|e|w|] eqn:Hs; cbn [sim] in S;
-    [|destruct S as [[nm x] S]; rewrite S; reflexivity|rewrite S; reflexivity..].
-  rewrite S. unfold zl at 1. cbn [bind fst snd is_nil gnil negb to_msg_err].
+    [|destruct S as [[nm x] S]; rewrite S; cbn; eexists; reflexivity|rewrite S; reflexivity..].
+  rewrite S. cbn [bind zl fst snd is_nil gnil negb to_msg_err].
   apply r_string_ok_small in Hs as [Hle Hsm]; [|apply wf_drop; exact W].
   rewrite drop_len in Hle by lia.
   rewrite wraps64_small by lia.
@@ -224,10 +225,13 @@ Proof.
   cbn [bind]. replace (Z.to_N (4 + Z.of_N l)) with (4 + l) by lia.
   pose proof (g_thrift_ReadI32_sim (drop (4 + l) buf) (wf_drop _ buf W)) as S2.
   destruct (r_i32_cases (drop (4 + l) buf)) as [[Hl Hr]|[Hl Hr]]; rewrite Hr in S2 |- *; cbn [sim] in S2.
-  - destruct S2 as [[v x] S2]. rewrite S2. reflexivity.
-  - rewrite S2. unfold zl. cbn [bind fst snd is_nil gnil negb to_msg_err unerr rmap].
-    rewrite wraps64_small by lia. do 3 f_equal. lia.
+  - destruct S2 as [[v x] S2]. rewrite S2. cbn. eexists; reflexivity.
+  - rewrite S2. cbn [bind zl fst snd is_nil gnil negb to_msg_err sim].
+    rewrite wraps64_small by lia. unfold zl. cbn [fst snd]. do 3 f_equal. lia.
 Qed.
+Lemma g_thrift_ReadMessageBegin_eq en buf :
+  wf buf -> unerr (g_thrift_ReadMessageBegin en buf) = rmap zl (r_message_begin buf).
+Proof. intros W. apply sim_unerr, g_thrift_ReadMessageBegin_sim, W. Qed.
 
 (* ---------- length functions ---------- *)
 Lemma g_thrift_BoolLength_eq b : g_thrift_BoolLength = Ok (Z.of_N (l_item (IBool b))).
